@@ -64,7 +64,7 @@ def readme():
             continue
         meta = json.load(open(os.path.join(d, "meta.json")))
         res = json.load(open(os.path.join(d, "result.json"))) if os.path.exists(os.path.join(d, "result.json")) else {}
-        caught = ", ".join(res.get("caught_by", [])) or ("not run" if not res else "**missed**")
+        caught = ", ".join(res.get("caught_by", [])) or ("not run" if not res else "**missed**" + (" (" + meta["not_caught_reason"] + ")" if meta.get("not_caught_reason") else ""))
         cls = "; ".join(c.split(" in ")[0] for v in res.get("checks", {}).values() for c in v.get("classes", [])[:2])
         rows.append("| %s | %s | %s | %s | %s | %s |" % (sid, meta["property"], meta.get("summary", "").replace("|", "/"),
                                                    meta.get("needs_to_manifest", "").replace("|", "/")[:160], caught, cls[:160]))
